@@ -172,9 +172,73 @@ def run(case, ctx):
             viols.append(viol("batch-count", f"{len(ref_seq)} samples batched, expected {(L // B) * B}"))
         if rkey is None and ref_seq != list(range((L // B) * B)):
             viols.append(viol("batch-order-without-key", f"rand_key=None but order is {ref_seq[:10]}..; {keyd}"))
+    # consumer of the batches: ml.map_plus_loss_in_batches (get_batches -> pmap'ed evaluate -> merge_axes -> concat) must hand
+    # back model(x_i, y_i) for exactly the batched samples, each once, input i still paired with target i
+    consumed = 0
+    if not viols and L <= 40 and L // B >= 1 and case["i"] % 4 == 0:
+        try:
+            viols += consumer(mis[0], L, B, rkey, D, keyd)
+            consumed = 1
+        except Exception as e:
+            import traceback
+
+            viols.append(viol(f"map-in-batches-exception-{type(e).__name__}", f"{type(e).__name__}: {str(e)[:200]}; {keyd}; {traceback.format_exc()[-300:]}"))
+        _mon.take()
     nontrivial = key_kind == "random" and (n_mi >= 2 or any(len(l) >= 2 for l in layouts)) and L // B >= 1
-    return result(keyd, viols, nontrivial, evals=1, obs={"get_batches_returns": 1, "batches_decoded": sum(len(l) for l in out) if not viols else 0, "id_sequences_compared": len(seqs)},
+    _counts["map_plus_loss_in_batches"] = _counts.get("map_plus_loss_in_batches", 0) + consumed
+    return result(keyd, viols, nontrivial, evals=1 + consumed, obs={"get_batches_returns": 1, "batches_decoded": sum(len(l) for l in out) if not viols else 0, "id_sequences_compared": len(seqs)},
                   hist={"D": D, "ndev": ndev, "key": key_kind, "n_multi_images": n_mi, "divisible": L % B == 0, "permuted": bool(seqs and seqs[0][1] != sorted(seqs[0][1]))}, sample={"key": keyd, "ids": (seqs[0][1][:12] if seqs else [])})
+
+
+def consumer(x, L, B, rkey, D, keyd):
+    import equinox as eqx
+    import jax.numpy as jnp
+    import ginjax.geometric as geom
+    import ginjax.ml as ml
+
+    class Gain(eqx.Module):
+        w: object
+
+    y = geom.MultiImage({t: 3 * v + 1 for t, v in x.items()}, D, True)  # target i is a function of input i
+    t0 = list(x.keys())[0]
+
+    def map_and_loss(model, xb, yb, aux):
+        out = geom.MultiImage({t: xb[t] + yb[t] * model.w for t in xb.keys()}, D, True)
+        return jnp.mean(yb[t0] - xb[t0]), aux, out
+
+    def map_and_loss2(model, xb, yb, aux):
+        return jnp.mean(yb[t0] - xb[t0]), aux
+
+    model = Gain(jnp.asarray(1.0))
+    loss, out = ml.map_plus_loss_in_batches(map_and_loss, model, x, y, B, rkey, None, None)
+    loss2 = ml.map_loss_in_batches(map_and_loss2, model, x, y, B, rkey, None, None)
+    viols, n = [], (L // B) * B
+    seqs = {}
+    for t in x.keys():
+        if t not in out or np.asarray(out[t]).shape != (n,) + np.asarray(x[t]).shape[1:]:
+            return [viol("map-in-batches-shape", f"mapped block {t}: shape {None if t not in out else np.asarray(out[t]).shape}, expected {(n,) + np.asarray(x[t]).shape[1:]}; {keyd}")]
+        o, xs = np.asarray(out[t]), np.asarray(x[t])
+        seq = []
+        for row in o:
+            sid = int((row.reshape(-1)[0] - 1) / 4) // 512
+            if sid < 0 or sid >= L or not np.array_equal(row, 4 * xs[sid] + 1):
+                return [viol("map-in-batches-row-not-model-of-a-sample", f"mapped block {t}: a row is not model(x_i, y_i) of any sample i (input/target pairing or batch reassembly broken); {keyd}")]
+            seq.append(sid)
+        seqs[t] = seq
+    ref = seqs[t0]
+    if len(set(ref)) != len(ref):
+        viols.append(viol("map-in-batches-repeat", f"a sample was mapped twice: {ref}; {keyd}"))
+    if any(sq != ref for sq in seqs.values()):
+        viols.append(viol("map-in-batches-misaligned", f"mapped blocks of different types are in different sample orders; {keyd}"))
+    if rkey is None and ref != list(range(n)):
+        viols.append(viol("map-in-batches-order", f"rand_key=None but the mapped rows are in order {ref[:10]}..; {keyd}"))
+    want = float(np.mean([np.mean(2 * np.asarray(x[t0])[i].astype(np.float64) + 1) for i in ref])) if ref else 0.0
+    for nm, l_ in (("map_plus_loss_in_batches", loss), ("map_loss_in_batches", loss2)):
+        if nm == "map_loss_in_batches" and rkey is not None:
+            pass  # same key -> same permutation -> same mean
+        if abs(float(l_) - want) > 1e-4 * max(1.0, abs(want)):
+            viols.append(viol("map-in-batches-loss", f"{nm} returned {float(l_)}, the mean over the batched samples is {want}; {keyd}"))
+    return viols
 
 
 def finalize(tier, results, obs, hist, metas):
